@@ -70,6 +70,17 @@ CLAIMS = {
         "JSON-null unwrap in get_mutate_query (needs a rusqlite::Connection) are outside. Kani stubs: dalek from_bytes/verify arbitrary Ok/Err, alloc::fmt::format empty.",
    technique="Kani/CBMC bounded model checking of the compiled code (byte decoders) + bounded symbolic execution of MIR with z3 (structural code); counterexamples replayed natively",
    design='DESIGN.md §3 C14'),
+ 'C20': dict(
+   level='model_checking',
+   text="Grant step only: RoomLockService::acquire_lock (an async fn without suspension point; its coroutine body is executed from MIR and must return Ready) from "
+        "an arbitrary state satisfying the representation invariant: 1-3 queued peers with 1-3 symbolic rooms each, 0-2 symbolic locked rooms, symbolic free slots >= 1, "
+        "every send succeeding or failing symbolically. z3 shows: no panic (usize underflow), at most one grant, a granted room was free and becomes locked, "
+        "locked + free slots is preserved, a room leaves a request only by grant or failed send, queue = keys of the request map without duplicates, no empty request "
+        "stays queued, and without a grant every still-requested room was locked. About 10% of the explored paths are replayed on the real async fn "
+        "(tokio current-thread runtime) and the whole final state is compared.",
+   note="The request/unlock handlers are inline in a spawned task (multi-state coroutine over mpsc::Receiver) and are outside; exclusivity and liveness across messages "
+        "and disconnection cleanup in peer_inbound_service are not claimed. The handlers' two call patterns are re-stated in the driver (driver code).",
+   design='DESIGN.md §3 C20'),
 }
 
 NA = {
